@@ -22,6 +22,7 @@
 #include <assert.h>
 #include <ctype.h>
 #include <errno.h>
+#include <limits.h>
 #include <stdbool.h>
 #include <stdio.h>
 #include <stdlib.h>
@@ -341,11 +342,17 @@ static int scan_line(npd_scan_state_t *nssp)
 static bool convert_int(const char *field, int *value)
 {
     char *end;
+    long temp;
 
-    *value = strtol(field, &end, 0);
+    errno = 0;
+    temp = strtol(field, &end, 0);
     if (end == field) {
 	return false;
     }
+    if (errno == ERANGE || temp < INT_MIN || temp > INT_MAX) {
+	return false;		/* does not fit an int */
+    }
+    *value = (int)temp;
     while (isspace(*end))
 	++end;
     return *end == '\000';
